@@ -94,6 +94,7 @@ def design_flat(r, name):
         kinds = ["plain", "plain", "rename", "action", "astype"]
         if a_named and s_named:
             kinds.append("ghost1")         # a ghost of one flavour only: `ghost_owned` / `ghost_ref` (grouped spelling)
+            kinds.append("ghost2")         # dedicated ghosts of both flavours with different defaults
         if a_named or k == n - 1:
             kinds.append("ghost")          # under a positional counterpart a ghost is only placed last (known index-skew defect otherwise)
         kind = r.choice(kinds)
@@ -109,11 +110,13 @@ def design_flat(r, name):
             f["aname"] = f["sname"]
             f["aty"] = "i64"
             a_members.append((f["aname"], "i64"))
+        elif kind == "ghost2":
+            f["c_owned"], f["c_ref"] = 610 + k, 620 + k
         elif kind == "ghost":
             f["const"] = 700 + k
             # a bare #[ghost] member of a named struct: its value comes from the From instruction's `..update`
             f["upd"] = s_named and r.random() < 0.35
-        if kind not in ("ghost", "ghost1"):
+        if kind not in ("ghost", "ghost1", "ghost2"):
             idx = len(a_members)
             if a_named:
                 an = f"r{k}" if kind == "rename" or (kind in ("action", "astype") and r.random() < 0.5) or not s_named else f["sname"]
@@ -156,7 +159,11 @@ def design_flat(r, name):
         fa = []
         same = s_named and a_named and f.get("aname") == f["sname"]
         tgt = f.get("aname")
-        if f["kind"] == "ghost1":
+        if f["kind"] == "ghost2":
+            two = [f"#[o2o(ghost_owned(A| {{ {f['c_owned']} }}))]", f"#[o2o(ghost_ref(A| {{ {f['c_ref']} }}))]"]
+            r.shuffle(two)
+            fa += two
+        elif f["kind"] == "ghost1":
             fa.append(f"#[o2o(ghost_{f['flavour']}({{ {f['const']} }}))]")
         elif f["kind"] == "ghost" and f.get("upd"):
             fa.append("#[ghost]")
@@ -207,10 +214,12 @@ def design_flat(r, name):
         for f in s_fields:
             if f["kind"] == "ghost1":
                 d[f["sname"]] = f["const"] if f["flavour"] == flav else aval[f["aname"]]
+            if f["kind"] == "ghost2":
+                d[f["sname"]] = f["c_owned"] if flav == "owned" else f["c_ref"]
         return d
     exp_s = {}
     for f in s_fields:
-        if f["kind"] == "ghost1":
+        if f["kind"] in ("ghost1", "ghost2"):
             continue
         if f["kind"] == "ghost":
             exp_s[f["sname"]] = (800 + f["k"]) if f.get("upd") else f["const"]
@@ -222,7 +231,7 @@ def design_flat(r, name):
     def exp_a(base, flav="owned"):
         d = dict(base)
         for f in s_fields:
-            if f["kind"] == "ghost":
+            if f["kind"] in ("ghost", "ghost2"):
                 continue
             if f["kind"] == "ghost1":
                 if f["flavour"] != flav:
@@ -548,8 +557,94 @@ def design_tree_hints(r, name):
     return m
 
 
+def design_pparent(r, name):
+    """a parameterised `#[parent(..)]`: the deriving struct holds a nested struct (of nested structs) whose leaves are the
+    flat members of the counterpart; nested levels are written `[parent(..)] member: Type`, renamed leaves
+    `[map(flat_name)] member`"""
+    m = Module(name, "tree")
+    counter = [0]
+    types = []
+
+    def build(tyname, depth):
+        """returns (entries text, rust fields, leaves [(path list, flat name)])"""
+        entries, fields, leaves = [], [], []
+        n_leaf = r.randrange(1, 3)
+        n_sub = r.randrange(0, 3) if depth < 2 else 0
+        if depth == 0 and n_leaf + n_sub < 2:
+            n_leaf = 2   # `#[parent(x)]` with one name is read as a dedication to type `x`
+        items = ["leaf"] * n_leaf + ["sub"] * n_sub
+        r.shuffle(items)
+        for it in items:
+            k = counter[0]
+            counter[0] += 1
+            if it == "leaf":
+                nm = f"l{k}"
+                ren = r.random() < 0.4
+                flat = f"x{k}" if ren else nm
+                entries.append((f"[map({flat})] " if ren else "") + nm)
+                fields.append(f"pub {nm}: i64")
+                leaves.append(([nm], flat))
+            else:
+                nm, ty = f"n{k}", f"T{k}"
+                e2, f2, l2 = build(ty, depth + 1)
+                types.append(f"{DERIVES} pub struct {ty} {{ " + ", ".join(f2) + " }")
+                entries.append(f"[parent({', '.join(e2)})] {nm}: {ty}")
+                fields.append(f"pub {nm}: {ty}")
+                leaves += [([nm] + pth, flat) for pth, flat in l2]
+        return entries, fields, leaves
+    entries, bfields, leaves = build("Base", 0)
+    types.append(f"{DERIVES} pub struct Base {{ " + ", ".join(bfields) + " }")
+    m.types += types
+    m.types.append(f"{DERIVES} pub struct A {{ " + ", ".join(f"pub {flat}: i64" for _, flat in leaves) + ", pub own: i64 }")
+    with_existing = r.random() < 0.6
+    attrs = ["#[map(A)]"] + (["#[into_existing(A)]"] if with_existing else [])
+    sf = [f"#[parent({', '.join(entries)})] pub base: Base", "pub own: i64"]
+    r.shuffle(sf)
+    item = " ".join(attrs) + " pub struct S { " + ", ".join(sf) + " }"
+    m.derive_src = item
+    m.types.append(f"#[derive(o2o)] {DERIVES} " + item)
+
+    def nested(vals, tyname, fields_src, prefix):
+        # value of the nested struct rooted at `prefix` from {tuple(path): value}
+        out = []
+        for fsrc in fields_src:
+            nm, ty = fsrc[len("pub "):].split(": ")
+            if ty == "i64":
+                out.append((nm, vals[tuple(prefix + [nm])]))
+            else:
+                sub_fields = next(t for t in m.types if f"pub struct {ty} " in t)
+                inner = sub_fields[sub_fields.index("{") + 1:sub_fields.rindex("}")].strip().split(", ")
+                out.append((nm, nested(vals, ty, inner, prefix + [nm])))
+        return ("named", tyname, out)
+    a_in = {flat: 10 * (i + 1) + 1 for i, (_, flat) in enumerate(leaves)}
+    s_in = {tuple(pth): 100 + i for i, (pth, _) in enumerate(leaves)}
+    a_val = lambda d, own: ("named", "A", [(flat, d[flat]) for _, flat in leaves] + [("own", own)])
+
+    def s_val(d, own):
+        fs = []
+        for f in sf:
+            if "base: Base" in f:
+                fs.append(("base", nested(d, "Base", bfields, [])))
+            else:
+                fs.append(("own", own))
+        return ("named", "S", fs)
+    exp_s = s_val({tuple(pth): a_in[flat] for pth, flat in leaves}, 5)
+    exp_a = a_val({flat: s_in[tuple(pth)] for pth, flat in leaves}, 6)
+    a_lit, s_lit = lit(a_val(a_in, 5)), lit(s_val(s_in, 6))
+    pre_exist = a_val({flat: 9000 + i for i, (_, flat) in enumerate(leaves)}, 9100)
+    m.tests.append(("from_owned", f'let a = {a_lit}; let r = S::from(a); println!("{name} from_owned {{:?}}", r);', dbg(exp_s)))
+    m.tests.append(("from_ref", f'let a = {a_lit}; let r = S::from(&a); println!("{name} from_ref {{:?}}", r);', dbg(exp_s)))
+    m.tests.append(("into_owned", f'let s = {s_lit}; let r: A = s.into(); println!("{name} into_owned {{:?}}", r);', dbg(exp_a)))
+    m.tests.append(("into_ref", f'let s = {s_lit}; let r: A = (&s).into(); println!("{name} into_ref {{:?}}", r);', dbg(exp_a)))
+    if with_existing:
+        m.tests.append(("existing_owned", f'let s = {s_lit}; let mut o = {lit(pre_exist)}; s.into_existing(&mut o); println!("{name} existing_owned {{:?}}", o);', dbg(exp_a)))
+        m.tests.append(("existing_ref", f'let s = {s_lit}; let mut o = {lit(pre_exist)}; (&s).into_existing(&mut o); println!("{name} existing_ref {{:?}}", o);', dbg(exp_a)))
+    return m
+
+
 def design_tree_any(r, name):
-    return design_tree_hints(r, name) if r.random() < 0.2 else design_tree(r, name)
+    t = r.random()
+    return design_tree_hints(r, name) if t < 0.2 else design_pparent(r, name) if t < 0.4 else design_tree(r, name)
 
 
 # ------------------------------------------------------------------------------------------------
@@ -711,7 +806,7 @@ def design_wf(r, name):
     return design_tree_hints(r, name) if r.random() < 0.5 else design_flat_parent(r, name)
 
 
-FAMILIES = {"wf": design_wf, "subst": design_subst, "flat7": design_flat7, "flat": design_flat_any, "tree": design_tree_any, "hints": design_tree_hints, "enum": design_enum, "prim": design_prim}
+FAMILIES = {"pparent": design_pparent, "wf": design_wf, "subst": design_subst, "flat7": design_flat7, "flat": design_flat_any, "tree": design_tree_any, "hints": design_tree_hints, "enum": design_enum, "prim": design_prim}
 
 
 # ------------------------------------------------------------------------------------------------
